@@ -285,4 +285,25 @@ theorem mem_reqAddAll (g : Grammar) (names : List Name) (x : Name) :
   unfold reqAddAll
   simp only [mem_sunion, List.mem_filter, decide_eq_true_eq]
 
+theorem mem_defaults_foldl_checked_iff (keys : List Name) (l : List (Name × String)) (d : List (Name × String))
+    (x : Name) (hall : ∀ p ∈ l, p.1 ∈ keys) :
+    x ∈ akeys (l.foldl (fun d p => if p.1 ∈ keys then aset d p.1 p.2 else d) d) ↔ x ∈ akeys d ∨ x ∈ akeys l := by
+  induction l generalizing d with
+  | nil => simp [akeys]
+  | cons p t ih =>
+    have hp : p.1 ∈ keys := hall p (List.mem_cons_self ..)
+    rw [List.foldl_cons, ih _ (fun q hq => hall q (List.mem_cons_of_mem _ hq))]
+    simp only [hp, if_true, mem_akeys_aset]
+    have hk : akeys (p :: t) = p.1 :: akeys t := rfl
+    rw [hk, List.mem_cons]
+    constructor
+    · rintro ((h | h) | h)
+      · exact Or.inl h
+      · exact Or.inr (Or.inl h)
+      · exact Or.inr (Or.inr h)
+    · rintro (h | h | h)
+      · exact Or.inl (Or.inl h)
+      · exact Or.inl (Or.inr h)
+      · exact Or.inr h
+
 end GV.C15
